@@ -6,6 +6,9 @@ evaluated at the reported optimum, at probe points around it and polished by Nel
 admissible point (by more than the minimizer tolerance) refutes the local-minimum clause.  Fixed parameters
 must keep exactly their values, limited ones stay inside their closed limits, both backends must agree to a
 small fraction of the reference uncertainty, and the iterative algorithm must return a fixed point.
+Case kinds: single fits (xy / indexed / hist / unbinned) and 'multi' (two xy / indexed members sharing parameters, joined by MultiFit;
+reference objective = sum of the members' reference costs; members with and without parameter-dependent uncertainties in all
+combinations; fixed / limited parameters declared on the MultiFit or on a member before the MultiFit is created).
 """
 import numpy as np
 from scipy import optimize
